@@ -309,7 +309,10 @@ class BaseState(ABC):
 
         # Compute probabilities p(i) = Tr(E_i * rho) for each POVM operator E_i
         probabilities = jnp.array(
-            [jnp.trace(jnp.matmul(op, self.state)).real for op in operators]
+            [
+                jnp.trace(jnp.matmul(op, jnp.matmul(self.state, jnp.conj(op.T)))).real
+                for op in operators
+            ]
         )
 
         # Normalize probabilities (handle numerical issues)
